@@ -31,10 +31,8 @@ Lemma res_alias_some : forall b ents fuel d base t x,
 Proof.
   induction fuel; simpl; intros; try discriminate.
   destruct (find_field t ents) as [T|] eqn:F; try discriminate.
-  destruct (e_kind T) eqn:K.
-  - inversion H. exists t, T. repeat split; auto. apply ch_refl. unfold is_alias. rewrite K. auto.
-  - inversion H. exists t, T. repeat split; auto. apply ch_refl. unfold is_alias. rewrite K. auto.
-  - inversion H. exists t, T. repeat split; auto. apply ch_refl. unfold is_alias. rewrite K. auto.
+  destruct (e_kind T) eqn:K;
+    try (inversion H; exists t, T; repeat split; auto; [apply ch_refl | unfold is_alias; rewrite K; auto]; fail).
   - destruct (str_eqb (e_name T) base); try discriminate.
     destruct (b && Nat.leb (length ents) d); try discriminate.
     apply IHfuel in H. destruct H as (u & T' & C & F' & A & N).
@@ -126,10 +124,8 @@ Lemma follow_sound : forall ents k t x, follow ents k t = Some x -> resolves_to 
 Proof.
   induction k; simpl; intros; try discriminate.
   destruct (find_field t ents) as [T|] eqn:F; try discriminate.
-  destruct (e_kind T) eqn:K.
-  - inversion H. exists t, T. repeat split; auto. apply ch_refl. unfold is_alias. rewrite K. auto.
-  - inversion H. exists t, T. repeat split; auto. apply ch_refl. unfold is_alias. rewrite K. auto.
-  - inversion H. exists t, T. repeat split; auto. apply ch_refl. unfold is_alias. rewrite K. auto.
+  destruct (e_kind T) eqn:K;
+    try (inversion H; exists t, T; repeat split; auto; [apply ch_refl | unfold is_alias; rewrite K; auto]; fail).
   - apply IHk in H. destruct H as (u & T' & C & F' & A & N).
     exists u, T'. repeat split; auto. eapply ch_step; eauto.
 Qed.
@@ -165,4 +161,61 @@ Proof.
   destruct (str_eqb (e_name T) base); try discriminate.
   destruct (b && Nat.leb (length ents) d); try discriminate.
   eapply IHfuel; eauto.
+Qed.
+
+(* ---- with the recursion bound: _GD_ResolveAlias = the Standards -------- *)
+Lemma chain_snoc : forall ents t u T t2, chain ents t u -> find_field u ents = Some T ->
+  e_kind T = EAlias t2 -> chain ents t t2.
+Proof.
+  induction 1; intros.
+  - eapply ch_step; eauto. apply ch_refl.
+  - eapply ch_step; eauto.
+Qed.
+
+(* on a cycle of aliases the chain never reaches a field *)
+Lemma loop_none : forall ents t0 u B, chain ents t0 u -> find_field u ents = Some B ->
+  e_kind B = EAlias t0 ->
+  forall n v, chain ents t0 v -> chain ents v u -> follow ents n v = None.
+Proof.
+  intros ents t0 u B C F K. induction n; intros v C1 C2; simpl; auto.
+  inversion C2; subst.
+  - rewrite F, K. apply IHn. apply ch_refl. auto.
+  - rewrite H, H0. apply IHn; auto. eapply chain_snoc; eauto.
+Qed.
+
+Lemma res_alias_bounded_follow : forall ents base B t0,
+  find_exact base ents = Some B -> e_kind B = EAlias t0 ->
+  forall fuel d t, chain ents t0 t -> (d <= length ents)%nat -> (length ents + 1 - d < fuel)%nat ->
+  res_alias true ents fuel d base t = ADone (follow ents (length ents + 1 - d) t).
+Proof.
+  intros ents base B t0 HB KB. induction fuel; intros d t C Hd Hf; try lia.
+  replace (length ents + 1 - d)%nat with (S (length ents - d)) by lia.
+  simpl. destruct (find_field t ents) as [T|] eqn:F; auto.
+  destruct (e_kind T) eqn:K; auto.
+  destruct (str_eqb (e_name T) base) eqn:EB.
+  - (* back at the alias being resolved: a loop *)
+    apply str_eqb_eq in EB.
+    assert (T = B).
+    { unfold find_field in F. pose proof (find_exact_name _ _ _ F) as Hn.
+      rewrite <- Hn in F. rewrite EB in F. congruence. }
+    subst T. rewrite KB in K. inversion K; subst target.
+    f_equal. symmetry. eapply loop_none; eauto. apply ch_refl.
+  - simpl. destruct (Nat.leb (length ents) d) eqn:L.
+    + apply Nat.leb_le in L. replace (length ents - d)%nat with 0%nat by lia. reflexivity.
+    + apply Nat.leb_gt in L. rewrite IHfuel; try lia.
+      * f_equal. f_equal. lia.
+      * eapply chain_snoc; eauto.
+Qed.
+
+(* alias_resolution: for an alias B of the entry list, the bounded
+   _GD_ResolveAlias returns exactly the Standards' ultimate target (the field at
+   the end of the chain, or dangling for a missing name or a loop) *)
+Theorem resolve_impl_is_alias_spec : forall ents B t0,
+  find_exact (e_name B) ents = Some B -> e_kind B = EAlias t0 ->
+  resolve_impl true ents (e_name B) t0 = ADone (alias_spec ents t0).
+Proof.
+  intros. unfold resolve_impl, alias_spec.
+  rewrite (res_alias_bounded_follow ents (e_name B) B t0 H H0); try lia.
+  - f_equal. f_equal. lia.
+  - apply ch_refl.
 Qed.
